@@ -154,6 +154,16 @@ def model_lines(spec: dict, slot: str, clock_lines: list[str]) -> list[str]:
 # real components
 # ------------------------------------------------------------------------------------------------
 
+class AnyAction:
+    """An action every actuator tree accepts: indexing it by any key gives it back."""
+
+    def __getitem__(self, key):
+        return self
+
+
+ANY_ACTION = AnyAction()
+
+
 class Rec:
     """Shared record of what the user components were asked to do."""
 
@@ -222,7 +232,7 @@ def make_classes():
 
         def step(self, observation):
             self.state += 1
-            return None
+            return ANY_ACTION
 
     class SEnv(Leaf, Environment):
         def __init__(self, rec, lid, state, tolerant):
